@@ -214,6 +214,43 @@ def run(tier):
                     fails.append(rec('%s: caller map without the governing value raised %s: %s' % (
                         desc, type(ex).__name__, str(ex)[:100]), codec=cname, tagging=tagging, container=container,
                         constructed=constructed))
+    f2, n2 = empty_inner(codecs)
+    return fails + f2, n + n2
+
+
+def empty_inner(codecs):
+    """an OPTIONAL open type field whose inner value is an empty constructed value: the field is present, and comes back
+    as that empty value, in every codec (the canonical encoders' "omit an empty OPTIONAL member" is about members)"""
+    from pyasn1.type import univ, namedtype, opentype, tag
+    from pyasn1.codec.ber import encoder as be
+    fails, n = [], 0
+    t3 = tag.Tag(tag.tagClassContext, tag.tagFormatSimple, 3)
+    so_t = univ.SequenceOf(componentType=univ.Integer())
+    rec_t = univ.Sequence(componentType=namedtype.NamedTypes(namedtype.OptionalNamedType('a', univ.Integer())))
+    ot = opentype.OpenType('id', {1: so_t, 2: rec_t})
+    for kind, tagging in itertools.product((univ.Sequence, univ.Set), ('untagged', 'implicit', 'explicit')):
+        if kind is univ.Set and tagging == 'untagged':
+            continue
+        any_ = univ.Any() if tagging == 'untagged' else univ.Any().subtype(**{tagging + 'Tag': t3})
+        spec = kind(componentType=namedtype.NamedTypes(namedtype.NamedType('id', univ.Integer()),
+                                                       namedtype.OptionalNamedType('blob', any_, openType=ot)))
+        for key, inner in ((1, so_t.clone().clear()), (2, rec_t.clone().clear())):
+            v = spec.clone()
+            v['id'] = key
+            v['blob'] = inner
+            for cname, enc, dec in codecs:
+                n += 1
+                desc = '%s %s OPTIONAL ANY in a %s, empty inner %s' % (cname, tagging, kind.__name__, inner.__class__.__name__)
+                try:
+                    e = enc(v)
+                    r, rest = dec.decode(e, asn1Spec=spec, decodeOpenTypes=True)
+                    got = r.getComponentByName('blob', default=None, instantiate=False)
+                    if got is None or got.__class__ is not inner.__class__ or be.encode(got) != be.encode(inner) or rest:
+                        fails.append(rec('%s: the field came back as %s' % (desc, 'absent' if got is None else repr(got)[:60]),
+                                         codec=cname, tagging=tagging, container='single', constructed=True, enc={'hex': e.hex()}))
+                except Exception as ex:
+                    fails.append(rec('%s: %s: %s' % (desc, type(ex).__name__, str(ex)[:100]), codec=cname, tagging=tagging,
+                                     container='single', constructed=True))
     return fails, n
 
 
